@@ -16,7 +16,12 @@ numbers lie in [-2^63, 2^64)), and the `…_exact`/`…_partial` forms below spe
 JSON value. Where `E.remarshal` is not the identity the two differ — that is finding F9: on the
 unrepaired tree (`lossy53`: every integer beyond ±2^53 is rounded) the exact-equality form of
 `handler_sees_defaulted_args` is false, with `f9_counterexample_unrepaired` as the proved witness and
-`f9_repaired_exact` showing the same call exact under fixes/F09. What is still missing for the
+`f9_repaired_exact` showing the same call exact under fixes/F09. The exact range has a signed and an
+unsigned half: `wrapper_exact_on_go_integer_range` proves that on arguments and outputs whose integers
+lie in [-2^63, 2^64) the wrapper over the server's decode IS the wrapper over the client's own values
+(every field of the outcome), `uint64_argument_and_result_exact` instantiates it for EVERY value of a
+uint64 member, and `signed_only_decode_counterexample` shows the statement false for a decode that keeps
+only int64 exact (2^63+1 altered, 2^64-1 refused, an object output altered). What is still missing for the
 exact-equality form over ALL inputs after the fix: integers outside [-2^63, 2^64) are still rounded
 before validation; no Go integer type can hold them, so the typed decoder rejects them or the field is
 a float64/`any` that rounds by its own type, and the harness has never observed a difference — but
@@ -474,6 +479,75 @@ theorem lossy64_exactFields : ∀ fs, InRange64Fields fs = true → mapNumFields
     simp only [mapNumFields, h1, lossy64_exactFields t h.2]
 end
 
+/-! ## the whole exact range: every integer in [-2^63, 2^64), signed or unsigned -/
+
+/-- the environment with validator `V`, default-filler `F` and numeric loss `R` -/
+def envOf (F : S → JVal → JVal) (V : S → JVal → Bool) (R : JVal → JVal) : Env S := { fill := F, valid := V, remarshal := R }
+
+/-- the output side of `applySchema` is exact on outputs in range -/
+theorem applyOut_exact (F : S → JVal → JVal) (V : S → JVal → Bool) (t : Tool S) (j : JVal)
+    (hj : InRange64 j = true) :
+    applyOut (envOf F V lossy64) t j = applyOut (envOf F V id) t j := by
+  have hf : ∀ s, outForm (envOf F V lossy64) t s j = outForm (envOf F V id) t s j := by
+    intro s
+    unfold outForm
+    simp only [envOf, lossy64_exact j hj, id]
+  unfold applyOut
+  cases t.outSchema with
+  | none => rfl
+  | some s => simp only [hf s]; rfl
+
+/-- **the wrapper is exact on everything a Go integer type can hold.** For every validator `V`,
+default-filler `F`, tool, handler and argument value: when every whole number in the arguments and in the
+handler's output lies in [-2^63, 2^64) — the union of the int64 and the uint64 range, i.e. every value an
+integer-typed member of a Go input or output type can take — the wrapper over the server's decode
+(`lossy64`: int64, else uint64, else float64) behaves exactly like the wrapper over the client's own JSON
+values (`id`): same invocation, same handler input, same result kind, same structured content, same
+content. No integer in that range is altered on the way to the handler or back. -/
+theorem wrapper_exact_on_go_integer_range (F : S → JVal → JVal) (V : S → JVal → Bool)
+    (t : Tool S) (h : JVal → HRet) (a : Args)
+    (ha : ∀ m, argsMap a = some m → InRange64 m = true)
+    (hz : ∀ z, t.elemZero = some z → InRange64 z = true)
+    (ho : ∀ x j, (h x).out = .json j → InRange64 j = true) :
+    call (envOf F V lossy64) t h a = call (envOf F V id) t h a := by
+  have hin : applyIn (envOf F V lossy64) t.inSchema a = applyIn (envOf F V id) t.inSchema a := by
+    unfold applyIn defaulted decoded
+    cases hm : argsMap a with
+    | none => rfl
+    | some m => simp only [envOf, Option.map_some, lossy64_exact m (ha m hm), id]; rfl
+  unfold call
+  rw [hin]
+  cases applyIn (envOf F V id) t.inSchema a with
+  | none => rfl
+  | some d =>
+    simp only []
+    cases t.decodeIn d with
+    | none => rfl
+    | some x =>
+      simp only []
+      cases (h x).err with
+      | some e => cases e <;> rfl
+      | none =>
+        simp only []
+        cases hout : (h x).out with
+        | nilAny =>
+          simp only [outJson]
+          cases t.outSchema.isSome with
+          | false => rfl
+          | true =>
+            simp only [if_true]
+            rw [applyOut_exact F V t .null (by simp [InRange64])]
+        | nilPtr =>
+          simp only [outJson]
+          have : InRange64 (t.elemZero.getD .null) = true := by
+            cases hez : t.elemZero with
+            | none => simp [InRange64]
+            | some z => simpa using hz z hez
+          rw [applyOut_exact F V t _ this]
+        | json j =>
+          simp only [outJson]
+          rw [applyOut_exact F V t j (ho x j hout)]
+
 /-! ## witnesses (non-vacuity) and the F9 counter-examples -/
 
 /-! ## registration: the schemas a tool enforces are its own, whatever was registered before
@@ -600,6 +674,123 @@ theorem f9_counterexample_unrepaired :
 theorem f9_repaired_exact :
     seenEqv (call (refEnv lossy64) wTool wEcho (wArgs 9007199254740993))
       (fill wSchema (.obj [("n", .num (.ofInt 9007199254740993))])) = true := by decide
+
+
+theorem Dec.isInt_ofInt (n : Int) : (Dec.ofInt n).isInt = true := by
+  simp [Dec.isInt, Dec.ofInt]
+theorem Dec.toInt_ofInt (n : Int) : (Dec.ofInt n).toInt = n := by
+  simp [Dec.toInt, Dec.ofInt]
+
+/-- a uint64 member holds exactly the integers of [0, 2^64): anything else is a decode error -/
+theorem project_uint64_num (n : Int) :
+    project .uint64 (.num (.ofInt n)) = if 0 ≤ n ∧ n < two64 then some (.num (.ofInt n)) else none := by
+  simp only [project, inUint64, Dec.isInt_ofInt, Dec.toInt_ofInt, Bool.true_and, Bool.and_eq_true, decide_eq_true_eq]
+
+/-- an int64 member holds exactly the integers of [-2^63, 2^63) -/
+theorem project_int64_num (n : Int) :
+    project .int64 (.num (.ofInt n)) = if -two63 ≤ n ∧ n < two63 then some (.num (.ofInt n)) else none := by
+  simp only [project, inInt64, Dec.isInt_ofInt, Dec.toInt_ofInt, Bool.true_and, Bool.and_eq_true, decide_eq_true_eq]
+
+theorem lossy64_int (n : Int) (h0 : -two63 ≤ n) (h1 : n < two64) : lossy64 (.num (.ofInt n)) = .num (.ofInt n) := by
+  apply lossy64_exact
+  simp [InRange64, Dec.isInt, Dec.toInt, h0, h1, Dec.ofInt]
+
+/-- **what `applySchema` hands on for an integer of the unsigned range, a uint64 member receives unchanged** -/
+theorem uint64_field_receives_exact (n : Int) (h0 : 0 ≤ n) (h1 : n < two64) :
+    project .uint64 (lossy64 (.num (.ofInt n))) = some (.num (.ofInt n)) := by
+  rw [lossy64_int n (by simp only [two63]; omega) h1, project_uint64_num]
+  simp [h0, h1]
+
+/-! ### the unsigned half of the exact range: uint64 members
+
+`jsonschema.ForType` gives a `uint64` member `{"type":"integer","minimum":0}`; its values go up to
+2^64-1, twice as far as int64. The server's decode keeps them exact (`UseUint64`), and `project .uint64`
+accepts exactly [0, 2^64). -/
+
+/-- the schema inferred for `struct{ N uint64 "n" }` -/
+def uSchema : Schema :=
+  .mk { ty := [.object], required := ["n"], apFalse := true }
+    [("n", .mk { ty := [.integer], minimum := some (.ofInt 0) } [] none none)] none none
+def uTy : GoTy := .struct [("n", false, .uint64)]
+def uTool : Tool Schema :=
+  { inSchema := uSchema, outSchema := some uSchema, outRootObject := true, elemZero := none, decodeIn := project uTy }
+
+theorem project_uTy (n : Int) (h0 : 0 ≤ n) (h1 : n < two64) :
+    project uTy (.obj [("n", .num (.ofInt n))]) = some (.obj [("n", .num (.ofInt n))]) := by
+  have hu := project_uint64_num n
+  simp only [h0, h1, and_self, if_true] at hu
+  show (projectFields [("n", false, .uint64)] [("n", .num (.ofInt n))]).map JVal.obj = _
+  rw [projectFields_cons, projectFields_nil]
+  simp only [fieldDecode, lookupJ, if_true, hu]
+  rfl
+
+theorem valid_uSchema (n : Int) (h0 : 0 ≤ n) : valid uSchema (.obj [("n", .num (.ofInt n))]) = true := by
+  have hle : Dec.le (.ofInt 0) (.ofInt n) = true := by simp [Dec.le, Dec.ofInt, h0]
+  simp [uSchema, valid, validProps, validOpt, leafOk, typeOk, hasType, enumOk, constOk, numOk,
+    strOk, requiredOk, hasKey, lookupJ, propsHasKey, Dec.isInt_ofInt, hle]
+
+theorem fill_uSchema (v : JVal) : fill uSchema (.obj [("n", v)]) = .obj [("n", v)] := by
+  rfl
+
+/-- **every uint64 value travels exactly, in both directions**: for EVERY `n` in [0, 2^64) the call with
+argument `{"n": n}` runs the handler on exactly `{"n": n}`, succeeds, and the echoing handler's output
+comes back as structured content `{"n": n}` — also above MaxInt64. -/
+theorem uint64_argument_and_result_exact (n : Int) (h0 : 0 ≤ n) (h1 : n < two64) :
+    (call (refEnv lossy64) uTool wEcho (wArgs n)).seen = some (.obj [("n", .num (.ofInt n))]) ∧
+    (call (refEnv lossy64) uTool wEcho (wArgs n)).kind = .ok ∧
+    (call (refEnv lossy64) uTool wEcho (wArgs n)).structured = some (.obj [("n", .num (.ofInt n))]) := by
+  have hl : lossy64 (.obj [("n", .num (.ofInt n))]) = .obj [("n", .num (.ofInt n))] := by
+    have := lossy64_int n (by simp only [two63]; omega) h1
+    simp only [lossy64, mapNum, mapNumFields] at this ⊢
+    rw [this]
+  have hin : applyIn (refEnv lossy64) uSchema (wArgs n) = some (.obj [("n", .num (.ofInt n))]) := by
+    simp only [applyIn, defaulted, decoded, argsMap, wArgs, refEnv, Option.map_some, hl, fill_uSchema, valid_uSchema n h0, if_true]
+  have hout : applyOut (refEnv lossy64) uTool (.obj [("n", .num (.ofInt n))]) = some (.obj [("n", .num (.ofInt n))]) := by
+    simp only [applyOut, uTool, outForm, refEnv, hl, fill_uSchema, valid_uSchema n h0, if_true]
+  have hcall : call (refEnv lossy64) uTool wEcho (wArgs n) =
+      { seen := some (.obj [("n", .num (.ofInt n))]), kind := .ok, structured := some (.obj [("n", .num (.ofInt n))]),
+        content := finalContent none (.obj [("n", .num (.ofInt n))]) } := by
+    unfold call
+    have e1 : uTool.inSchema = uSchema := rfl
+    have e2 : uTool.decodeIn = project uTy := rfl
+    simp only [e1, hin, e2, project_uTy n h0 h1, wEcho, outJson, hout]
+  rw [hcall]; exact ⟨rfl, rfl, rfl⟩
+
+def structEqv (o : Outcome) (v : JVal) : Bool :=
+  match o.structured with
+  | some x => x.eqv v
+  | none => false
+
+/-- **why the unsigned half matters.** With a decode that keeps only int64 exact (`lossy63`: `UseInt64`
+without `UseUint64`) in the place of the wrapper's: the schema-valid argument `n = 2^63+1` reaches the
+uint64 member as 9223372036854776000; the schema-valid `n = 2^64-1` is re-encoded as
+18446744073709552000, which no uint64 holds, so the VALID call is refused with a tool error and the
+handler does not run; and an output `{"n": 2^64-1}` comes back as structured content
+`{"n": 18446744073709552000}` — not a value of the output type at all. -/
+theorem signed_only_decode_counterexample :
+    valid uSchema (fill uSchema (.obj [("n", .num (.ofInt 9223372036854775809))])) = true ∧
+    seenEqv (call (refEnv lossy63) uTool wEcho (wArgs 9223372036854775809))
+      (.obj [("n", .num (.ofInt 9223372036854776000))]) = true ∧
+    seenEqv (call (refEnv lossy63) uTool wEcho (wArgs 9223372036854775809))
+      (.obj [("n", .num (.ofInt 9223372036854775809))]) = false ∧
+    valid uSchema (fill uSchema (.obj [("n", .num (.ofInt 18446744073709551615))])) = true ∧
+    (call (refEnv lossy63) uTool wEcho (wArgs 18446744073709551615)).seen.isNone = true ∧
+    (call (refEnv lossy63) uTool wEcho (wArgs 18446744073709551615)).kind = .toolError ∧
+    structEqv (call (refEnv lossy63) uTool (fun _ => { out := .json (.obj [("n", .num (.ofInt 18446744073709551615))]) }) (wArgs 7))
+      (.obj [("n", .num (.ofInt 18446744073709552000))]) = true ∧
+    (project .uint64 (.num (.ofInt 18446744073709552000))).isNone = true := by decide
+
+/-- the boundaries under the wrapper's own decode: 2^63-1, 2^63, 2^63+1, 2^64-1 exact (argument and
+structured content); 2^64 and -1 refused without running the handler -/
+theorem uint64_boundaries :
+    seenEqv (call (refEnv lossy64) uTool wEcho (wArgs 9223372036854775807)) (.obj [("n", .num (.ofInt 9223372036854775807))]) = true ∧
+    seenEqv (call (refEnv lossy64) uTool wEcho (wArgs 9223372036854775808)) (.obj [("n", .num (.ofInt 9223372036854775808))]) = true ∧
+    seenEqv (call (refEnv lossy64) uTool wEcho (wArgs 9223372036854775809)) (.obj [("n", .num (.ofInt 9223372036854775809))]) = true ∧
+    seenEqv (call (refEnv lossy64) uTool wEcho (wArgs 18446744073709551615)) (.obj [("n", .num (.ofInt 18446744073709551615))]) = true ∧
+    structEqv (call (refEnv lossy64) uTool wEcho (wArgs 18446744073709551615)) (.obj [("n", .num (.ofInt 18446744073709551615))]) = true ∧
+    (call (refEnv lossy64) uTool wEcho (wArgs 18446744073709551616)).seen.isNone = true ∧
+    (call (refEnv lossy64) uTool wEcho (wArgs 18446744073709551616)).kind = .toolError ∧
+    (call (refEnv lossy64) uTool wEcho (wArgs (-1))).seen.isNone = true := by decide
 
 /-! ### member names are matched exactly -/
 
